@@ -4,6 +4,8 @@
    [now] the clock, [st] the signing time (0 = none).  Authentic / Current / SaysGood /
    SaysRevoked are the declarative readings of the property text (Proofs/Ocsp.v, top). *)
 From NCG Require Import Model.Ocsp Proofs.Ocsp.
+From NCG Require Import Model.Revocation Proofs.SpecAcceptsModel.
+From NCG Require Run.C04.
 
 Theorem C04_ok_sound : forall outcome now st, 0 < now -> forall urls,
   cr_result (fst (ocsp_check outcome now st urls)) = ROK ->
@@ -82,3 +84,10 @@ Theorem C04_contact_log : forall outcome now st urls,
   snd (ocsp_check outcome now st urls) = filter (contacts outcome) (upto outcome now st urls).
 Proof. exact ocsp_check_log. Qed.
 Print Assumptions C04_contact_log.
+
+(* the clauses that the correspondence run applies to the leaf result of the IMPLEMENTATION (Run/C04.v) accept the
+   result of the model in every world *)
+Theorem C04_spec_side_accepts_model : forall w st urls, urls <> [] ->
+  Run.C04.c04_spec w st urls (cr_result (fst (ocsp_check (w_ocsp w) (w_now w) st urls))) = 0%Z.
+Proof. exact model_passes_c04_spec. Qed.
+Print Assumptions C04_spec_side_accepts_model.
